@@ -6,9 +6,9 @@ use clap_complete::aot::{generate, Shell};
 use std::io::Write as _;
 
 #[derive(Clone, Debug)]
-struct GA { id: String, short: Option<char>, long: Option<String>, vshorts: Vec<char>, vlongs: Vec<String>, takes: bool, positional: bool, pvs: Vec<(String, bool)>, hint: u8, global: bool }
+struct GA { help: Option<String>, id: String, short: Option<char>, long: Option<String>, vshorts: Vec<char>, vlongs: Vec<String>, takes: bool, positional: bool, pvs: Vec<(String, bool)>, hint: u8, global: bool }
 #[derive(Clone, Debug)]
-struct GN { name: String, aliases: Vec<String>, args: Vec<GA>, subs: Vec<GN> }
+struct GN { about: Option<String>, name: String, aliases: Vec<String>, args: Vec<GA>, subs: Vec<GN> }
 
 const ATOMS: [&str; 10] = ["a", "b", "a-b", "b-a", "a-b-a", "x_y", "a_b", "ab", "c", "a-"];
 
@@ -40,7 +40,7 @@ fn gen_gn(rng: &mut Rng, depth: usize, idx: &mut usize, collide: bool, odd: bool
         let vlongs = if long.is_some() && rng.chance(1, 3) { vec![format!("o{i}x-alias")] } else { vec![] };
         let pvs = if takes && rng.chance(1, 3) { (0..1 + rng.below(3)).map(|j| (format!("pv{i}v{j}"), rng.chance(1, 5))).collect() } else { vec![] };
         let global = !positional && long.is_some() && short.is_none() && depth <= 1 && rng.chance(1, 6);
-        args.push(GA { id: format!("arg{i}"), short, long, vshorts, vlongs, takes, positional, pvs, hint: if takes { rng.below(5) as u8 } else { 0 }, global });
+        args.push(GA { help: if rng.chance(1, 2) { Some(rng.pick(&["plain help", "it's", "two\nlines", "", "q \u{2018}x\u{2019}"]).to_string()) } else { None }, id: format!("arg{i}"), short, long, vshorts, vlongs, takes, positional, pvs, hint: if takes { rng.below(5) as u8 } else { 0 }, global });
     }
     let nsubs = if depth >= 3 { 0 } else { match rng.below(4) { 0 => 0, 1 => 1, 2 => 2, _ => 3 } };
     let mut subs = vec![];
@@ -53,12 +53,13 @@ fn gen_gn(rng: &mut Rng, depth: usize, idx: &mut usize, collide: bool, odd: bool
         child.name = n; child.aliases = aliases;
         subs.push(child);
     }
-    GN { name, aliases: vec![], args, subs }
+    GN { about: if depth > 0 && rng.chance(1, 2) { Some(rng.pick(&["about text", "it's about", "a\nb"]).to_string()) } else { None }, name, aliases: vec![], args, subs }
 }
 
 fn build(n: &GN) -> Command {
     let mut c = Command::new(n.name.clone());
     for a in &n.aliases { c = c.visible_alias(a.clone()); }
+    if let Some(a) = &n.about { c = c.about(a.clone()); }
     for a in &n.args {
         let mut x = Arg::new(a.id.clone());
         if let Some(s) = a.short { x = x.short(s); }
@@ -68,6 +69,7 @@ fn build(n: &GN) -> Command {
         x = if a.takes { x.action(ArgAction::Set) } else { x.action(ArgAction::SetTrue) };
         if !a.pvs.is_empty() { x = x.value_parser(a.pvs.iter().map(|(n, h)| PossibleValue::new(n.clone()).hide(*h)).collect::<Vec<_>>()); }
         if a.global { x = x.global(true); }
+        if let Some(h) = &a.help { x = x.help(h.clone()); }
         x = match a.hint { 1 => x.value_hint(ValueHint::FilePath), 2 => x.value_hint(ValueHint::DirPath), 3 => x.value_hint(ValueHint::Other), 4 => x.value_hint(ValueHint::Hostname), _ => x };
         c = c.arg(x);
     }
@@ -103,6 +105,27 @@ fn encode(cmd: &Command, out: &mut Vec<String>) {
     let subs: Vec<&Command> = cmd.get_subcommands().collect();
     out.push(subs.len().to_string());
     for s in subs { encode(s, out); }
+}
+
+/// the elvish / PowerShell generators' view of a built level, for the CaseGen model
+fn encode_case(cmd: &Command, out: &mut Vec<String>) {
+    let h = |s: &str| if s.is_empty() { "-".to_string() } else { hex(s.as_bytes()) };
+    let names = cmd.get_name_and_visible_aliases();
+    out.push(names.len().to_string()); for n in names { out.push(h(n)); }
+    out.push(cmd.get_about().map(|a| h(&a.to_string())).unwrap_or("~".into()));
+    let opts: Vec<&Arg> = cmd.get_arguments().filter(|a| !a.is_positional()).collect();
+    out.push(opts.len().to_string());
+    for a in opts {
+        let sh = a.get_short_and_visible_aliases().unwrap_or_default();
+        out.push(sh.len().to_string()); for c in sh { out.push(h(&c.to_string())); }
+        let lo = a.get_long_and_visible_aliases().unwrap_or_default();
+        out.push(lo.len().to_string()); for l in lo { out.push(h(l)); }
+        out.push(a.get_help().map(|x| h(&x.to_string())).unwrap_or("~".into()));
+        out.push(b01(a.get_num_args().expect("built").takes_values()).into());
+    }
+    let subs: Vec<&Command> = cmd.get_subcommands().collect();
+    out.push(subs.len().to_string());
+    for s in subs { encode_case(s, out); }
 }
 
 fn gen_script(shell: &str, n: &GN) -> String {
@@ -154,7 +177,7 @@ pub fn run(o: &Opts) -> Report {
         let mut tree = gen_gn(&mut rng, 0, &mut idx, collide, odd, &mut used);
         if collide && rng.chance(1, 2) {
             // the shape whose mangled paths coincide: sibling `a-b` next to a nested `a` -> `b`
-            let leaf = |name: &str, i: usize| GN { name: name.into(), aliases: vec![], args: vec![GA { id: format!("carg{i}"), short: None, long: Some(format!("col{i}x-long")), vshorts: vec![], vlongs: vec![], takes: false, positional: false, pvs: vec![], hint: 0, global: false }], subs: vec![] };
+            let leaf = |name: &str, i: usize| GN { about: None, name: name.into(), aliases: vec![], args: vec![GA { help: None, id: format!("carg{i}"), short: None, long: Some(format!("col{i}x-long")), vshorts: vec![], vlongs: vec![], takes: false, positional: false, pvs: vec![], hint: 0, global: false }], subs: vec![] };
             let (x, y) = *rng.pick(&[("a", "b"), ("b", "a"), ("a-b", "a")]);
             let mut nested = leaf(x, 1); nested.subs.push(leaf(y, 2));
             tree.subs.retain(|s| s.name != x && s.name != format!("{x}-{y}") && !s.aliases.contains(&x.to_string()) && !s.aliases.contains(&format!("{x}-{y}")));
@@ -174,6 +197,16 @@ pub fn run(o: &Opts) -> Report {
                 Ok((a, b)) => { if a != b { rep.oracle_fail("generator-nondeterministic", &format!("{key0} shell={shell}"), "two runs differ"); } scripts.insert(shell, a); }
             }
             rep.count(&format!("scripts_{shell}"));
+        }
+        // elvish / PowerShell: the whole script, byte for byte, against the CaseGen model
+        for (shell, tag) in [("elvish", "elvish"), ("pwsh", "pwsh")] {
+            if let Some(script) = scripts.get(shell) {
+                let mut b = build(&tree); b.set_bin_name(tree.name.clone()); b.build();
+                let mut t = vec!["casegen".to_string(), tag.to_string(), hex(tree.name.as_bytes())];
+                encode_case(&b, &mut t);
+                reqs.push(t.join(" ")); impls.push(hex(script.as_bytes())); keys.push(format!("{key0} [{shell} script]"));
+                rep.count(&format!("casegen_{shell}"));
+            }
         }
         // nushell: every completer a parameter refers to is defined in the script
         if let Some(nu) = scripts.get("nu") {
@@ -301,6 +334,12 @@ pub fn run(o: &Opts) -> Report {
         for (((req, m), i), k) in reqs.iter().zip(model.iter()).zip(impls.iter()).zip(keys.iter()) {
             let mm = if m == "NOTHING" { "WORDS".to_string() } else { m.trim_end().to_string() };
             if req.starts_with("bashcases") && i == "PANIC" { if !m.ends_with("PANIC") { rep.disagree("bashcases", k, m, "generator panicked"); } continue; }
+            if req.starts_with("casegen") {
+                if m != i { let dec = |x: &str| String::from_utf8_lossy(&unhex(x)).to_string(); let (a, b2) = (dec(m), dec(i));
+                    let d = a.lines().zip(b2.lines()).find(|(x, y)| x != y).map(|(x, y)| format!("model: {x}\nreal:  {y}")).unwrap_or_else(|| format!("{} vs {} lines", a.lines().count(), b2.lines().count()));
+                    rep.disagree("casegen", k, &d, ""); }
+                continue;
+            }
             if mm.trim() != i.trim() && !(m == "VALUES") { rep.disagree(req.split(' ').next().unwrap(), k, m, i); }
         }
     }
